@@ -79,7 +79,14 @@ type Case struct {
 	Desc interface{} `json:"desc"`
 	Tags []string    `json:"tags,omitempty"`
 	Key  string      `json:"-"` // fingerprint for distinct counting (default: Coq text)
+	Defs []Def       `json:"-"` // optional: named sub-terms the Coq text refers to (see Def)
 }
+
+// Def is a named sub-term shared between cases of one stream ("Definition Name : Type := Body.").
+// Emit writes, in every shard, each Def referenced by that shard's cases once (first-use order, so a
+// Def may refer to Defs listed before it) in front of the header's final "Definition cases" line.
+// Big case files are dominated by parsing; sharing repeated sub-terms keeps them small.
+type Def struct{ Name, Type, Body string }
 
 // Config from flags.
 type Config struct {
@@ -128,7 +135,21 @@ func Emit(c Config, stream string, header, footer string, cases []Case, extra ma
 			panic(err)
 		}
 		w := bufio.NewWriter(f)
-		w.WriteString(header)
+		hd, open := header, ""
+		if p := strings.LastIndex(header, "Definition cases"); p >= 0 {
+			hd, open = header[:p], header[p:]
+		}
+		w.WriteString(hd)
+		written := map[string]bool{}
+		for k := i; k < j; k++ {
+			for _, d := range cases[k].Defs {
+				if !written[d.Name] {
+					written[d.Name] = true
+					fmt.Fprintf(w, "Definition %s : %s := %s.\n", d.Name, d.Type, d.Body)
+				}
+			}
+		}
+		w.WriteString(open)
 		for k := i; k < j; k++ {
 			if k > i {
 				w.WriteString(";\n")
